@@ -635,3 +635,22 @@ _M2[("series", "any")] = _s_all_any("any")
 for _w in ("min", "max", "sum", "std"):
     if ("series", _w) not in _M2:
         _M2[("series", _w)] = _s_scalar_agg(_w)
+
+
+def _series_idx_extreme(which):
+    def m(I, recv, args, kwargs):
+        """idxmin / idxmax / argmax: label (position) of the first extreme element, via the argmin model"""
+        v = recv.values
+        if which in ("idxmax", "argmax"):
+            neg = SSeries(recv.index, SArr(v.shape, lambda i: ops.simp(-ops.as_real(v.fn(i))), "real", "ndarray"), recv.name)
+            pos = _series_argmin(I, neg, [], {})
+        else:
+            pos = _series_argmin(I, recv, [], {})
+        if which.startswith("idx"):
+            return recv.index.fn(pos)
+        return pos
+    return m
+
+
+for _w in ("idxmin", "idxmax", "argmax"):
+    _M2[("series", _w)] = _series_idx_extreme(_w)
